@@ -80,7 +80,7 @@ def seeded():
             ", ".join(caught) if caught else ("**missed**" if r else "not run yet"),
             esc(hist.get(sid, "caught by the check as first built"
                          + (" (`no-failing-input-found`: tie/proof broke, search found no input)" if "no-failing-input-found" in vio else "")))))
-    nm = sum(1 for k in hist if k in res)
+    nm = sum(1 for k, v in hist.items() if k in res and "missed at first" in v)
     return ("%d confirmed seeded changes; %d are caught by the check of their property (quick tier, seed 0) as the checks stand now; "
             "%d of them were MISSED when first run and led to the strengthening described in the last column.\n\n" % (n, c, nm)
             + "\n".join(rows))
